@@ -66,6 +66,8 @@ def values_of(vclass, rng):
         'huge': ['photo' * 14000 + tail, 'H' * 20000],          # 90 000 characters in all (size limits of inflaters and parsers)
         'many': ['v%02d-%s' % (i, tail) for i in range(25)],
         'backslash': ['EXAMPLE\\nick' + tail, 'a\\\\b \\1 \\g<0>', 'C:\\temp\\new\\1st', 'cn=Smith\\, John'],
+        # the same value more than once, and values that differ only in surrounding blanks or in case: a multiset
+        'repeated': ['dup' + tail, 'dup' + tail, '  dup' + tail + ' ', 'Dup' + tail, 'other', ''],
         'newline': ['line1\nline2 ' + tail + '\n\nline3\tTab'],      # CR is subject to XML line-end normalisation
     }[vclass]
 
